@@ -6,7 +6,8 @@
               Person{name: Unicode, age: Integer, born: Date}                   (unrelated)
               Color = enum(red, green)
      urn:app: Circle{x: Unicode}                                                (unrelated, same NAME as tns:Circle)
-     f(shape: Shape, n: Integer, s: Unicode, d: Date, col: Color, xs: Array(Integer), ps: Array(Person), p: Person) -> Integer
+     f(shape: Shape, n: Integer, s: Unicode, d: Date, col: Color, xs: Array(Integer), ps: Array(Person), p: Person,
+       fl: Double, b: Boolean, cs: Array(Circle), ss: Array(Shape)) -> Integer
      g(c: {urn:app}Circle) -> Integer
    A valid request for f is mutated at ONE position by one type-directed operator; the
    server is the same for all mutants of a run (so consecutive requests can interfere).
@@ -39,7 +40,8 @@ Classes == {<<Tns, "Shape">>, <<Tns, "Circle">>, <<Tns, "Square">>, <<Tns, "Pers
 Family(ns, name) == IF ns = Tns /\ name = "Shape" THEN {<<Tns, "Shape">>, <<Tns, "Circle">>, <<Tns, "Square">>} ELSE {<<ns, name>>}
 Args == << <<"shape", Cls(Tns, "Shape")>>, <<"n", Prim("Integer")>>, <<"s", Prim("Unicode")>>, <<"d", Prim("Date")>>, <<"col", Enum>>,
            <<"xs", ArrOf(Prim("Integer"))>>, <<"ps", ArrOf(Cls(Tns, "Person"))>>, <<"p", Cls(Tns, "Person")>>,
-           <<"fl", Prim("Double")>>, <<"b", Prim("Boolean")>> >>
+           <<"fl", Prim("Double")>>, <<"b", Prim("Boolean")>>,
+           <<"cs", ArrOf(Cls(Tns, "Circle"))>>, <<"ss", ArrOf(Cls(Tns, "Shape"))>> >>
 \* the SOAP request header of the service (delivered to user code as ctx.in_header)
 Header == Cls(Tns, "Session")
 
@@ -50,7 +52,10 @@ Positions == { [path |-> <<"shape">>, t |-> Cls(Tns, "Shape")], [path |-> <<"sha
                [path |-> <<"ps">>, t |-> ArrOf(Cls(Tns, "Person"))], [path |-> <<"ps", "0">>, t |-> Cls(Tns, "Person")],
                [path |-> <<"ps", "0", "age">>, t |-> Prim("Integer")], [path |-> <<"p">>, t |-> Cls(Tns, "Person")],
                [path |-> <<"p", "name">>, t |-> Prim("Unicode")], [path |-> <<"p", "age">>, t |-> Prim("Integer")], [path |-> <<"p", "born">>, t |-> Prim("Date")],
-               [path |-> <<"fl">>, t |-> Prim("Double")], [path |-> <<"b">>, t |-> Prim("Boolean")] }
+               [path |-> <<"fl">>, t |-> Prim("Double")], [path |-> <<"b">>, t |-> Prim("Boolean")],
+               \* an array of a DERIVED class next to an array of its base: the array of the base is not a substitute for it
+               [path |-> <<"cs">>, t |-> ArrOf(Cls(Tns, "Circle"))], [path |-> <<"cs", "0">>, t |-> Cls(Tns, "Circle")],
+               [path |-> <<"ss">>, t |-> ArrOf(Cls(Tns, "Shape"))] }
 \* positions inside the SOAP header (XML family, SOAP protocols only)
 HeaderPositions == { [path |-> <<"@hdr">>, t |-> Header], [path |-> <<"@hdr", "token">>, t |-> Prim("Unicode")],
                      [path |-> <<"@hdr", "n">>, t |-> Prim("Integer")], [path |-> <<"@hdr", "d">>, t |-> Prim("Date")] }
@@ -61,7 +66,7 @@ Xs == "http://www.w3.org/2001/XMLSchema"
 \* xsi:type targets: every class of the interface, XSD builtins, a name nobody declared
 \* (the array wrapper types are classes of the interface too)
 RetagTargets == Classes \cup {<<Xs, "string">>, <<Xs, "int">>, <<Xs, "integer">>, <<Xs, "anyType">>, <<Xs, "date">>, <<Tns, "Nope">>, <<Tns, "Color">>, <<Tns, "f">>, <<Tns, "fResponse">>,
-                              <<Tns, "integerArray">>, <<Tns, "PersonArray">>}
+                              <<Tns, "integerArray">>, <<Tns, "PersonArray">>, <<Tns, "ShapeArray">>, <<Tns, "CircleArray">>}
 \* leaf texts that are not values of the slot but NAME something: attributes of the model classes, other types' literals
 HostileTexts == {"Attributes", "__values__", "__type_name__", "validate_string", "mro", "__class__", "blue", "", "1e3", "2020-13-45", "None", "True"}
 XmlMutants == {[fam |-> "xml", pos |-> p, op |-> "retag", arg |-> q] : p \in Positions \cup HeaderPositions, q \in RetagTargets}
